@@ -397,6 +397,20 @@ class RequestCache(TaskManager):
         self._identifiers.clear()
         return tasks
 
+    async def shutdown_task_manager(self) -> None:
+        """
+        Stop the task manager of this request cache.
+
+        The timeout tasks and the shutdown flag are shared with the ``TaskManager``: once they are gone nothing else
+        would ever resolve the registered caches, so cancel their managed futures and forget them first.
+        """
+        with self.lock:
+            for cache in self._identifiers.values():
+                for future, _ in cache.managed_futures:
+                    future.cancel()
+            self._identifiers.clear()
+        await super().shutdown_task_manager()
+
     async def shutdown(self) -> None:
         """
         Clear the cache, cancel all pending tasks and disallow new caches being added.
